@@ -107,6 +107,8 @@ def _base_case(draw, kind):
         "dof": draw(st.booleans()),
         "xnames_arg": draw(st.sampled_from(["tuple", "list"])) if nx else draw(st.sampled_from(["none", "omit", "empty"])),
         "up_to_order": draw(st.integers(0, 3)),
+        # estimate(..., target_db=box): the box already holds residual series of an earlier estimation (and a bystander)
+        "target_db": draw(st.sampled_from([False, False, True])),
     }
     if kind == "noise_free":
         # every exogenous variable must move every equation a little, otherwise nothing excites the system
@@ -445,6 +447,13 @@ def _estimate(ir, case, db, first_win):
         ekw["num_variants"] = nv
     if case["kind"] == "priors":
         ekw["prior_obs"] = _make_prior_objects(ir, case)
+    if case.get("target_db"):
+        np_ = _np()
+        tdb = ir.Databox()
+        for j in range(n):
+            tdb["res_" + YNAMES[j]] = ir.Series(start=first_win, values=np_.full((p + T, nv), 123.0 + j))
+        tdb["bystander_"] = 7
+        ekw["target_db"] = tdb
     try:
         out = model.estimate(db, span, **ekw)
     except Exception as exc:  # noqa: BLE001
